@@ -12,7 +12,9 @@ import hashlib
 import io
 import json
 import os
+import shutil
 import subprocess
+import tempfile
 import sys
 import time
 from pathlib import Path
@@ -137,10 +139,10 @@ def digest(files: dict) -> str:
     return hsh.hexdigest()[:16]
 
 
-def gen(entry: dict, package: str, extra_options: dict | None = None, reset=True, keep_cwd=None):
+def gen(entry: dict, package: str, extra_options: dict | None = None, reset=True, keep_cwd=None, cache=None, run_cwd=None):
     opts = dict(entry.get("options") or {})
     opts.update(extra_options or {})
-    return CG.generate(entry["sources"], entry.get("uris"), package=package, options=_resolve(opts), reset_caches=reset, keep_cwd=keep_cwd)
+    return CG.generate(entry["sources"], entry.get("uris"), package=package, options=_resolve(opts), reset_caches=reset, keep_cwd=keep_cwd, cache=cache, run_cwd=run_cwd)
 
 
 def _resolve(opts: dict) -> dict:
@@ -235,6 +237,47 @@ def h_twice(ch: Chooser, name: str):
                 return dict(ok=False, case=case, bucket=f"twice/{name}/second-run-fails", detail=repr(g2.error))
             if g2.files != files1:
                 return dict(ok=False, case=case, bucket="twice/second-run-differs", detail=first_diff(files1, g2.files))
+            # the same again with the cache of parsed classes: the run that writes the cache and the run that reads it
+            # both produce what a run without the cache produces
+            cache_file = None
+            try:
+                for leg, mode in (("cache-written", "fresh"), ("cache-read", "reuse")):
+                    for m in [m for m in sys.modules if m == root or m.startswith(root + ".")]:
+                        del sys.modules[m]
+                    g3 = gen(entry, "pkgx", reset=False, keep_cwd=g1.workdir, cache=mode)
+                    cache_file = getattr(g3, "cache_file", None) or cache_file
+                    c3 = {"source_set": name, "leg": leg}
+                    if g3.error is not None:
+                        if leg == "cache-read" and isinstance(g3.error, KeyError) and any(r.endswith(".wsdl") for r in entry["sources"]):
+                            return dict(ok=False, case=c3, bucket="KF/wsdl-classes-read-from-the-cache-carry-stale-class-references", detail=repr(g3.error))
+                        return dict(ok=False, case=c3, bucket=f"twice/{leg}/run-fails", detail=repr(g3.error))
+                    if g3.files != files1:
+                        return dict(ok=False, case=c3, bucket=f"twice/{leg}/differs-from-run-without-cache", detail=first_diff(files1, g3.files))
+            finally:
+                if cache_file is not None:
+                    cache_file.unlink(missing_ok=True)
+            # the same sources (absolute uris) while the process stands in another directory, which holds unrelated files under the
+            # names the sources use for each other (schemaLocation / location are relative to the referring document, never to cwd)
+            secondary = [r for r in entry["sources"] if entry.get("uris") and r not in entry["uris"]]
+            if secondary:
+                other = tempfile.mkdtemp(prefix="vmc_c12cwd_")
+                try:
+                    for r in secondary:
+                        pth = os.path.join(other, r)
+                        os.makedirs(os.path.dirname(pth), exist_ok=True)
+                        with open(pth, "w") as fh:
+                            fh.write('<?xml version="1.0"?>\n<xs:schema xmlns:xs="http://www.w3.org/2001/XMLSchema"><xs:element name="decoy" type="xs:string"/></xs:schema>\n')
+                    for m in [m for m in sys.modules if m == root or m.startswith(root + ".")]:
+                        del sys.modules[m]
+                    g4 = gen(entry, "pkgx", reset=False, keep_cwd=g1.workdir, run_cwd=other)
+                    c4 = {"source_set": name, "leg": "other-working-directory", "decoys": secondary}
+                    if g4.error is not None:
+                        return dict(ok=False, case=c4, bucket="twice/other-cwd/run-fails", detail=repr(g4.error))
+                    out4 = {k: v for k, v in g4.files.items() if k not in secondary}
+                    if out4 != files1:
+                        return dict(ok=False, case=c4, bucket="twice/other-cwd/differs", detail=first_diff(files1, out4))
+                finally:
+                    shutil.rmtree(other, ignore_errors=True)
             return dict(ok=True, case=case, obs=digest(files1), nontrivial=h(("twice", name)))
         finally:
             g2.cleanup()
